@@ -632,3 +632,7 @@ mod tests {
         ));
     }
 }
+
+#[cfg(all(test, pendulum_project_ntpd_rs_verif))]
+#[path = "/verif/harness/ntp-proto/hook_packet__v5__mod.rs"]
+mod verif_hook;
